@@ -15,6 +15,8 @@ from sim import runner
 
 FILES = ["windpyutils/files.py"]
 KINDS = ["RandomLineAccessFile", "MemoryMappedRandomLineAccessFile", "MapAccessFile"]
+# subclasses of the line files that read through the same handle (records are loaded from the raw line)
+RECORD_KINDS = {"RandomLineAccessFile": "RecordFile", "MemoryMappedRandomLineAccessFile": "MemoryMappedRecordFile"}
 MAX_ACTORS = 6
 
 
@@ -22,6 +24,7 @@ def build_plan(choice: Choice, tier):
     d = choice.draw
     p = {}
     p["kind"] = KINDS[d(5, "kind") % 3]
+    p["as_record_file"] = p["kind"] in RECORD_KINDS and d(4, "record.file") == 3
     n = 3 + d(10, "lines")
     p["n_lines"] = n
     p["long"] = d(6, "long") == 5     # lines longer than the 8 KiB buffer
@@ -82,6 +85,30 @@ def build_plan(choice: Choice, tier):
     return p
 
 
+def make_raw_record():
+    from dataclasses import dataclass
+    from windpyutils.files import Record
+
+    @dataclass
+    class Raw(Record):
+        text: str
+
+        @classmethod
+        def load(cls, s):
+            return cls(s)
+
+        def save(self):
+            return self.text
+    return Raw
+
+
+def unwrap(v):
+    """Record files return records: compare their text."""
+    if isinstance(v, list):
+        return [unwrap(x) for x in v]
+    return getattr(v, "text", v)
+
+
 def make_lines(plan):
     out = []
     for i in range(plan["n_lines"]):
@@ -118,11 +145,11 @@ def execute(plan, choice, tmpdir, trace):
             if kind == "MapAccessFile":
                 i = op[1] % len(lines)
                 return ["get", i, obj[mkey(i)]]
-            return ["get", op[1], obj[op[1]]]
+            return ["get", op[1], unwrap(obj[op[1]])]
         if op[0] == "slice":
-            return ["slice", op[1], op[2], obj[op[1]:op[2]]]
+            return ["slice", op[1], op[2], unwrap(obj[op[1]:op[2]])]
         if op[0] == "iter_all":
-            return ["iter_all", list(obj)]
+            return ["iter_all", unwrap(list(obj))]
         if op[0] == "iter_next":
             if st["it"] is None:
                 st["it"] = iter(obj)
@@ -130,7 +157,7 @@ def execute(plan, choice, tmpdir, trace):
             out = []
             for _ in range(op[1]):
                 try:
-                    v = next(st["it"])
+                    v = unwrap(next(st["it"]))
                 except StopIteration:
                     v = None
                 except BaseException:
@@ -195,15 +222,17 @@ def execute(plan, choice, tmpdir, trace):
                     raise AssertionError(f"MapAccessFile len {len(obj)} != {len(lines)}")
             else:
                 li = plan.get("line_index", "built")
+                cls = getattr(files, RECORD_KINDS[kind] if plan.get("as_record_file") else kind)
+                pre = (path, make_raw_record()) if plan.get("as_record_file") else (path,)
                 if li == "list":
-                    obj = getattr(files, kind)(path, list(offsets))
+                    obj = cls(*pre, list(offsets))
                 elif li == "file":
                     ip = os.path.join(tmpdir, "lines.index")
                     with open(ip, "w") as f:
                         f.write("".join(f"{o}\n" for o in offsets))
-                    obj = getattr(files, kind)(path, ip)
+                    obj = cls(*pre, ip)
                 else:
-                    obj = getattr(files, kind)(path)
+                    obj = cls(*pre)
             obj.open()
             for i in plan["warm"]:
                 _ = obj[mkey(i)] if kind == "MapAccessFile" else obj[i]
